@@ -193,3 +193,15 @@ M("group-copy-shallow", ["C18"], "Group copy keeps the child objects", ("       
 M("polyshape-copy-shares-points", ["C18"], "copied polygons share their Point objects", ("                elif isinstance(first_point, (list, tuple, complex, str, Point)):\n                    self.points = list(map(Point, points))", "                elif isinstance(first_point, Point):\n                    self.points = list(points)\n                elif isinstance(first_point, (list, tuple, complex, str, Point)):\n                    self.points = list(map(Point, points))"))
 M("length-neg-in-place", ["C18", "C12"], "-length negates the operand", ("    def __neg__(self):\n        s = self.__copy__()\n        s.amount = -s.amount\n        return s", "    def __neg__(self):\n        self.amount = -self.amount\n        return self"))
 M("arc-copy-shares-center", ["C18"], "copied arcs share the centre Point", ("        if len_args > 2:\n            if args[2] is not None:\n                self.center = Point(args[2])", "        if len_args > 2:\n            if args[2] is not None:\n                self.center = args[2] if isinstance(args[2], Point) else Point(args[2])"))
+
+# ---- viewport (C11) --------------------------------------------------------------------------------------
+M("meet-uses-max", ["C11"], "meet picks the larger scale", ('        if align != SVG_VALUE_NONE and meet_or_slice == "meet":\n            scale_x = scale_y = min(scale_x, scale_y)', '        if align != SVG_VALUE_NONE and meet_or_slice == "meet":\n            scale_x = scale_y = max(scale_x, scale_y)'))
+M("xmid-uses-height", ["C11"], "xMid centres with the height", ('        if "xmid" in align:\n            translate_x += (e_width - vb_width * scale_x) / 2.0', '        if "xmid" in align:\n            translate_x += (e_height - vb_height * scale_y) / 2.0'))
+M("ymax-halved", ["C11"], "yMax only moves half way", ('        if "ymax" in align:\n            translate_y += e_height - vb_height * scale_y', '        if "ymax" in align:\n            translate_y += (e_height - vb_height * scale_y) / 2.0'))
+M("default-align-min", ["C11"], "absent preserveAspectRatio aligns at min", ('        else:\n            align = "xMidyMid"\n            meet_or_slice = "meet"', '        else:\n            align = "xMinyMin"\n            meet_or_slice = "meet"'))
+M("align-case-sensitive", ["C11"], "alignment keywords matched before lower-casing", ('        align = align.lower()\n        if "xmid" in align:', '        if "xmid" in align:'))
+M("slice-missing", ["C11"], "slice treated as meet", ('        elif align != SVG_VALUE_NONE and meet_or_slice == "slice":\n            scale_x = scale_y = max(scale_x, scale_y)', '        elif align != SVG_VALUE_NONE and meet_or_slice == "slice":\n            scale_x = scale_y = min(scale_x, scale_y)'))
+M("viewbox-three-numbers-accepted", ["C11"], "an incomplete viewBox keeps its partial values", ("            except IndexError:\n                pass\n\n    def transform(self, element):", "            except IndexError:\n                self.width = self.width if self.width is not None else 100.0\n                self.height = self.height if self.height is not None else 100.0\n\n    def transform(self, element):"))
+M("scale-six-decimals", ["C11"], "scale printed with 6 decimals", ('                return "translate(%s, %s) scale(%s, %s)" % (\n                    Length.str(translate_x),\n                    Length.str(translate_y),\n                    Length.str(scale_x),\n                    Length.str(scale_y),', '                return "translate(%s, %s) scale(%s, %s)" % (\n                    Length.str(translate_x),\n                    Length.str(translate_y),\n                    "%.6f" % scale_x,\n                    "%.6f" % scale_y,'))
+M("svg-height-defaults-to-width", ["C11"], "missing height falls back to the viewBox width", ("                        height = s.viewbox.height if s.viewbox is not None else 1000", "                        height = s.viewbox.width if s.viewbox is not None else 1000"))
+M("nested-zero-returns-again", ["C11", "C10"], "a zero-sized nested svg ends the parse again", ("                            if context is None:\n                                return s  # The document itself is not rendered.", "                            if True:\n                                return s  # The document itself is not rendered."))
